@@ -233,6 +233,9 @@ func c16Scenario(t *rapid.T, w *World, p *Profile) {
 		}
 		id++
 		httpDo(w, id, "GET", url, nil, "")
+		if i == k-1 && rapid.IntRange(0, 2).Draw(t, "evwhileloading") == 0 {
+			c16EventsWhileLoading(t, w)
+		}
 		answerAllOK(w)
 		id++
 		httpDo(w, id, "HEAD", url, nil, "")
@@ -262,6 +265,65 @@ func c16Scenario(t *rapid.T, w *World, p *Profile) {
 				}
 			}
 			w.Exec(op)
+		}
+	}
+}
+
+// c16EventsWhileLoading: while the GET's tree is still loading, events for
+// resources of the tree reach the gateway - custom events, a delete event, the
+// removal of a reference. They are sent raw (the reference service's state does
+// not change), and a GET holds its events back: the body must still be the
+// expansion of what was fetched.
+func c16EventsWhileLoading(t *rapid.T, w *World) {
+	// answer a part of what is pending (oldest first), at least the root's get
+	n := rapid.IntRange(1, 4).Draw(t, "evanswered")
+	for i := 0; i < n; i++ {
+		ps := w.PendingSorted()
+		if len(ps) <= 1 {
+			break
+		}
+		best := ps[0]
+		for _, p := range ps {
+			if p.P.Seq < best.P.Seq {
+				best = p
+			}
+		}
+		w.Exec(Op{K: "ans", S: best.P.Subject, Q: best.P.Query, A: actorEnc(best.Actor), N: best.Ord, O: "ok"})
+	}
+	if len(w.PendingSorted()) == 0 {
+		return
+	}
+	var names []string
+	for _, d := range w.Cfg.Resources {
+		if d.QueryMap == nil && !d.Missing {
+			names = append(names, d.Name)
+		}
+	}
+	m := rapid.IntRange(1, 3).Draw(t, "evcount")
+	for i := 0; i < m; i++ {
+		name := rapid.SampledFrom(names).Draw(t, "evname")
+		d := w.Svc.def(name)
+		switch rapid.IntRange(0, 3).Draw(t, "evkind") {
+		case 0:
+			w.Exec(Op{K: "rawev", S: "event." + name + ".custom", P: `{"x":1}`, Key: "loading:custom"})
+		case 1:
+			w.Exec(Op{K: "rawev", S: "event." + name + ".delete", P: `null`, Key: "loading:delete"})
+		default:
+			// drop a reference (or any member) of the cached resource
+			if d != nil && d.Type == "collection" {
+				if len(d.Coll) > 0 {
+					w.Exec(Op{K: "rawev", S: "event." + name + ".remove", P: fmt.Sprintf(`{"idx":%d}`, rapid.IntRange(0, len(d.Coll)-1).Draw(t, "evidx")), Key: "loading:remove"})
+				}
+			} else if d != nil {
+				var keys []string
+				for k := range d.Model {
+					keys = append(keys, k)
+				}
+				sort.Strings(keys)
+				if len(keys) > 0 {
+					w.Exec(Op{K: "rawev", S: "event." + name + ".change", P: `{"values":{` + jstr(rapid.SampledFrom(keys).Draw(t, "evkey")) + `:{"action":"delete"}}}`, Key: "loading:change"})
+				}
+			}
 		}
 	}
 }
